@@ -19,7 +19,8 @@ from vlib import glist, gbool, gstr
 EV = {"update": 0, "freeze": 1, "activate": 2, "logout": 3}
 KIND = {"appchain": "KChain", "service": "KSvc", "rule": "KRule", "role": "KRole", "node": "KNode"}
 FLAG_FINDING = {"d_cache_failed_events": "C16-cache-fed-by-failed-tx", "d_cache_not_reloaded": "C16-cache-not-reloaded",
-                "d_logout_reject_unpauses": "C16-logout-reject-unpauses-services"}
+                "d_logout_reject_unpauses": "C16-logout-reject-unpauses-services",
+                "d_withdraw_paused": "C16-withdraw-paused-proposal"}
 
 
 # ----------------------------------------------------------------------------- blocks
@@ -110,8 +111,9 @@ def gobs(s):
 def cfg_literal(known):
     # d_cache_not_reloaded is a fact of the code (the cache starts empty), harmless for gating on its own: always tried on and off
     # d_cache_deferred / a non-injective d_cache_key are not facts of the code: never part of the current set
-    return "{| d_cache_failed_events := %s; d_cache_not_reloaded := true; d_logout_reject_unpauses := %s; d_manage_reject_only := false; d_cache_key := fun i => i; d_cache_deferred := false |}" % tuple(
-        gbool(FLAG_FINDING[f] in known) for f in ("d_cache_failed_events", "d_logout_reject_unpauses"))
+    return ("{| d_cache_failed_events := %s; d_cache_not_reloaded := true; d_logout_reject_unpauses := %s; d_manage_reject_only := false; "
+            "d_withdraw_paused := %s; d_cache_key := fun i => i; d_cache_deferred := false |}") % tuple(
+        gbool(FLAG_FINDING[f] in known) for f in ("d_cache_failed_events", "d_logout_reject_unpauses", "d_withdraw_paused"))
 
 
 def judge(ctx, pairs, known, tag="C16"):
@@ -558,12 +560,15 @@ def classify(v, known):
     if v[0] == 2:
         w = v[1] // 100000
         explained = (v[1] % 100000) >= 50000
-        step = v[1] % 50000
+        by_withdraw = (v[1] % 50000) >= 25000   # the withdrawal of a paused proposal is what breaks the property on this history
+        step = v[1] % 25000
         what = {1: "an interchain request was accepted/rejected against the stored service records (gate)", 2: "a status changed outside the declared state machine",
                 3: "a logged-out object became usable again", 4: "a frozen / logged-out appchain has an available service (cascade)"}.get(w, "?")
         fid = {1: FLAG_FINDING["d_cache_failed_events"], 4: FLAG_FINDING["d_logout_reject_unpauses"]}.get(w)
         if explained and fid in known:
             return "known", fid
+        if by_withdraw and FLAG_FINDING["d_withdraw_paused"] in known:
+            return "known", FLAG_FINDING["d_withdraw_paused"]
         return "violation", "%s at step %d" % (what, step)
     if v[0] == 1:
         comp = {1: "receipt", 2: "request outcome", 3: "appchain statuses", 4: "service records", 5: "rules", 6: "roles", 7: "proposal statuses", 8: "executor cache", 9: "trace length"}
